@@ -485,6 +485,25 @@ def truth_table(dump, max_inputs=8):
     return rows
 
 
+def large_bench_circuit(rng, n_gates):
+    """a netlist whose bench text is far larger than any I/O buffer (64 KiB and more): a few inputs, then
+    n_gates bench gates over random earlier gates, several outputs at the end and in the middle"""
+    order = [(f'x{i}', 'INPUT', []) for i in range(rng.randint(2, 6))]
+    avail = [l for l, _, _ in order]
+    for i in range(n_gates):
+        t = rng.choice(['AND', 'OR', 'XOR', 'NAND', 'NOR', 'NXOR', 'NOT', 'IFF'])
+        ops = [rng.choice(avail[-40:])] if t in ('NOT', 'IFF') else [rng.choice(avail), rng.choice(avail[-10:])]
+        order.append((f'g{i}', t, ops))
+        avail.append(f'g{i}')
+    users = {}
+    for l, t, ops in order:
+        for o in ops:
+            users.setdefault(o, []).append(l)
+    outs = [avail[-1], avail[len(avail) // 2], avail[-2], avail[-1]] + [rng.choice(avail) for _ in range(5)]
+    return {'inputs': [l for l, t, _ in order if t == 'INPUT'], 'outputs': outs, 'gates': order,
+            'users': list(users.items()), 'blocks': []}
+
+
 def oracle_roundtrip(dump):
     """Circuit.from_bench_string(c.format_circuit()) == c, also through save_to_file / from_bench_file"""
     from cirbo.core.circuit import Circuit
